@@ -12,7 +12,36 @@ import (
 // ---------------------------------------------------------------------------
 // Mod-set analysis (which heap components a set of blocks may write)
 
-type modset map[string]Sort
+// modInfo: how a heap component may be written: everywhere (whole) or only
+// at the references / rows named by SSA values of the analysed function.
+type modInfo struct {
+	sort  Sort
+	whole bool
+	refs  []ssa.Value // field / cell components: pointer values; element components: slice values (their backing row)
+}
+
+type modset map[string]*modInfo
+
+func (m modset) get(n string, s Sort) *modInfo {
+	mi := m[n]
+	if mi == nil {
+		mi = &modInfo{sort: s}
+		m[n] = mi
+	}
+	return mi
+}
+
+func (m modset) whole(n string, s Sort) { m.get(n, s).whole = true }
+
+func (m modset) at(n string, s Sort, v ssa.Value) {
+	mi := m.get(n, s)
+	for _, r := range mi.refs {
+		if r == v {
+			return
+		}
+	}
+	mi.refs = append(mi.refs, v)
+}
 
 func (x *Exec) addrRootComp(v ssa.Value, out modset) {
 	switch a := v.(type) {
@@ -24,12 +53,12 @@ func (x *Exec) addrRootComp(v ssa.Value, out modset) {
 		}
 		st := a.X.Type().Underlying().(*types.Pointer).Elem()
 		n, s := x.fieldComp(st, a.Field)
-		out[n] = s
+		out.at(n, s, a.X)
 	case *ssa.IndexAddr:
 		switch xt := a.X.Type().Underlying().(type) {
 		case *types.Slice:
 			n, s := x.elemComp(xt.Elem())
-			out[n] = s
+			out.at(n, s, a.X)
 		case *types.Pointer:
 			switch a.X.(type) {
 			case *ssa.FieldAddr, *ssa.IndexAddr:
@@ -37,11 +66,11 @@ func (x *Exec) addrRootComp(v ssa.Value, out modset) {
 				return
 			}
 			n, s := x.cellComp(xt.Elem())
-			out[n] = s
+			out.at(n, s, a.X)
 		}
 	case *ssa.Global:
 		n, s := x.globComp(a)
-		out[n] = s
+		out.whole(n, s)
 	default:
 		pt, ok := v.Type().Underlying().(*types.Pointer)
 		if !ok {
@@ -50,20 +79,20 @@ func (x *Exec) addrRootComp(v ssa.Value, out modset) {
 		if st, ok := pt.Elem().Underlying().(*types.Struct); ok {
 			for i := 0; i < st.NumFields(); i++ {
 				n, s := x.fieldComp(pt.Elem(), i)
-				out[n] = s
+				out.at(n, s, v)
 			}
 			return
 		}
 		n, s := x.cellComp(pt.Elem())
-		out[n] = s
+		out.at(n, s, v)
 	}
 }
 
 func (x *Exec) mapCompsInto(mt *types.Map, out modset) {
 	dn, vn, ln, ks, vs := x.mapComps(mt)
-	out[dn] = SArr(SInt, SArr(ks, SBool))
-	out[vn] = SArr(SInt, SArr(ks, vs))
-	out[ln] = SArr(SInt, SBV(64))
+	out.whole(dn, SArr(SInt, SArr(ks, SBool)))
+	out.whole(vn, SArr(SInt, SArr(ks, vs)))
+	out.whole(ln, SArr(SInt, SBV(64)))
 }
 
 func (x *Exec) instrMods(ins ssa.Instruction, out modset, visiting map[*ssa.Function]bool) {
@@ -75,20 +104,9 @@ func (x *Exec) instrMods(ins ssa.Instruction, out modset, visiting map[*ssa.Func
 	case *ssa.MakeMap:
 		x.mapCompsInto(in.Type().Underlying().(*types.Map), out)
 	case *ssa.Alloc:
-		x.addrRootComp(in, out)
-	case *ssa.MakeSlice:
-		n, s := x.elemComp(in.Type().Underlying().(*types.Slice).Elem())
-		out[n] = s
-	case *ssa.Convert:
-		if sl, ok := in.Type().Underlying().(*types.Slice); ok {
-			n, s := x.elemComp(sl.Elem())
-			out[n] = s
-		}
-	case *ssa.Slice:
-		if pt, ok := in.X.Type().Underlying().(*types.Pointer); ok {
-			n, s := x.elemComp(pt.Elem().Underlying().(*types.Array).Elem())
-			out[n] = s
-		}
+		// fresh cell: writes only a new reference (no pre-existing location changes)
+	case *ssa.MakeSlice, *ssa.Convert, *ssa.Slice:
+		// fresh backing rows only
 	case *ssa.Call:
 		x.callMods(&in.Call, out, visiting)
 	case *ssa.Defer:
@@ -102,7 +120,7 @@ func (x *Exec) callMods(c *ssa.CallCommon, out modset, visiting map[*ssa.Functio
 		case "append", "copy":
 			if sl, ok := c.Args[0].Type().Underlying().(*types.Slice); ok {
 				n, s := x.elemComp(sl.Elem())
-				out[n] = s
+				out.at(n, s, c.Args[0])
 			}
 		case "delete":
 			x.mapCompsInto(c.Args[0].Type().Underlying().(*types.Map), out)
@@ -123,13 +141,32 @@ func (x *Exec) callMods(c *ssa.CallCommon, out modset, visiting map[*ssa.Functio
 		return
 	}
 	if !inModule(fn) || fn.Blocks == nil {
-		for n, s := range x.stdlibMods(fn, c) {
-			out[n] = s
+		for n, mi := range x.stdlibMods(fn, c) {
+			out.whole(n, mi.sort)
 		}
 		return
 	}
-	for n, s := range x.fnMods(fn, visiting) {
-		out[n] = s
+	for n, mi := range x.fnMods(fn, visiting) {
+		if mi.whole {
+			out.whole(n, mi.sort)
+			continue
+		}
+		for _, r := range mi.refs {
+			// translate callee parameters to the caller's arguments
+			if p, ok := r.(*ssa.Parameter); ok {
+				idx := -1
+				for i, fp := range fn.Params {
+					if fp == p {
+						idx = i
+					}
+				}
+				if idx >= 0 && idx < len(c.Args) {
+					out.at(n, mi.sort, c.Args[idx])
+					continue
+				}
+			}
+			out.whole(n, mi.sort)
+		}
 	}
 }
 
@@ -138,6 +175,7 @@ func (x *Exec) fnMods(fn *ssa.Function, visiting map[*ssa.Function]bool) modset 
 		return m
 	}
 	if visiting[fn] {
+		// recursion: be conservative for everything the function touches
 		return modset{}
 	}
 	visiting[fn] = true
@@ -145,6 +183,14 @@ func (x *Exec) fnMods(fn *ssa.Function, visiting map[*ssa.Function]bool) modset 
 	for _, b := range fn.Blocks {
 		for _, ins := range b.Instrs {
 			x.instrMods(ins, out, visiting)
+		}
+	}
+	// references that are not parameters of fn cannot be named by callers
+	for _, mi := range out {
+		for _, r := range mi.refs {
+			if _, ok := r.(*ssa.Parameter); !ok {
+				mi.whole = true
+			}
 		}
 	}
 	delete(visiting, fn)
@@ -161,7 +207,25 @@ func (x *Exec) loopMods(lp *loop) modset {
 			x.instrMods(ins, out, map[*ssa.Function]bool{})
 		}
 	}
+	// a reference is usable only if it is the same value in every iteration
+	for _, mi := range out {
+		for _, r := range mi.refs {
+			if !loopInvariantValue(lp, r) {
+				mi.whole = true
+			}
+		}
+	}
 	return out
+}
+
+func loopInvariantValue(lp *loop, v ssa.Value) bool {
+	switch t := v.(type) {
+	case *ssa.Parameter, *ssa.Const, *ssa.Global, *ssa.FreeVar:
+		return true
+	case ssa.Instruction:
+		return !lp.blocks[t.Block()]
+	}
+	return false
 }
 
 // ---------------------------------------------------------------------------
@@ -177,6 +241,45 @@ func (x *Exec) loopSpecFor(fr *Frame, lp *loop) *loopSpec {
 // resolveName finds the SSA value holding source variable name at header hdr.
 func (x *Exec) resolveName(fr *Frame, hdr *ssa.BasicBlock, name string, st *State) Value {
 	fn := fr.fn
+	if strings.HasPrefix(name, "old:#") {
+		hn := name[5:]
+		if v, ok := x.oldCache[hn]; ok {
+			return v
+		}
+		ls := x.loopSpecHolding(hn)
+		if ls == nil || x.entryState == nil {
+			unsup("old() helper %s not available", hn)
+		}
+		var args []Value
+		for _, pn := range ls.paramsOf[hn] {
+			var v Value
+			for _, p := range fn.Params {
+				if p.Name() == pn {
+					v = x.get(fr, p)
+				}
+			}
+			if v == nil {
+				unsup("old(): %s is not a parameter", pn)
+			}
+			args = append(args, v)
+		}
+		sub := x.entryState.clone()
+		res, nst := x.callFunction(ls.oldSSA[hn], args, nil, sub)
+		if nst == nil {
+			unsup("old() helper does not return")
+		}
+		// ghost allocations made by the helper (Snap) must stay visible: copy them into the current state
+		for k, v := range nst.heap {
+			if _, ok := st.heap[k]; !ok {
+				st.heap[k] = v
+			}
+		}
+		if x.oldCache == nil {
+			x.oldCache = map[string]Value{}
+		}
+		x.oldCache[hn] = res[0]
+		return res[0]
+	}
 	if strings.HasPrefix(name, "old:") {
 		for _, p := range fn.Params {
 			if p.Name() == name[4:] {
@@ -288,9 +391,36 @@ func (x *Exec) enterLoop(fr *Frame, lp *loop, st *State) {
 		}
 		fr.vals[phi] = x.havocLike(st, phi)
 	}
-	for n, s := range x.loopMods(lp) {
-		x.compSort[n] = s
-		st.heap[n] = x.w.Fresh(n, s)
+	for n, mi := range x.loopMods(lp) {
+		x.compSort[n] = mi.sort
+		if mi.whole {
+			st.heap[n] = x.w.Fresh(n, mi.sort)
+			continue
+		}
+		// only the named references / rows change
+		h := x.comp(st, n, mi.sort)
+		_, elemSort, _ := mi.sort.arrParts()
+		for _, r := range mi.refs {
+			var ref *Term
+			switch v := x.get(fr, r).(type) {
+			case *Term:
+				if v.sort == SSlice {
+					ref = x.w.sArr(v)
+				} else {
+					ref = v
+				}
+			case *Addr:
+				if v.root == rCell && len(v.path) == 0 {
+					ref = v.ref
+				}
+			}
+			if ref == nil || ref.sort != SInt {
+				h = x.w.Fresh(n, mi.sort)
+				break
+			}
+			h = x.w.ts.Store(h, ref, x.w.Fresh(n+"_at", elemSort))
+		}
+		st.heap[n] = h
 	}
 	x.bumpAlloc(st)
 	if ls != nil {
@@ -358,4 +488,16 @@ func (x *Exec) backEdge(fr *Frame, lp *loop, from *ssa.BasicBlock, cond *Term, s
 	for phi, v := range saved {
 		fr.vals[phi] = v
 	}
+}
+
+func (x *Exec) loopSpecHolding(helper string) *loopSpec {
+	if x.target == nil {
+		return nil
+	}
+	for _, ls := range x.target.Loops {
+		if _, ok := ls.oldSSA[helper]; ok {
+			return ls
+		}
+	}
+	return nil
 }
